@@ -12,11 +12,12 @@
 //! indexer returns to a block by rollback, the answers to a fixed query set and the dump of
 //! the live key prefixes equal what they were when that block was the tip before.
 
+mod backend;
 mod model;
 mod oracle;
+mod oracle_rich;
 
-use ckb_indexer::verif::VerifIndexer;
-use ckb_indexer::IndexerHandle;
+use backend::{Backend, Dump};
 use model::*;
 use oracle::*;
 use serde::{Deserialize, Serialize};
@@ -60,11 +61,24 @@ pub struct Domains {
     /// a manual Rollback may remove block 0 (leaving an index with no block)
     #[serde(default)]
     pub rollback_to_empty: bool,
+    /// rich-indexer: indexed args / data may extend a non-empty all-0xff byte string that is searched as a prefix
+    #[serde(default)]
+    pub rich_all_ff_prefix: bool,
+    /// rich-indexer: ungrouped get_transactions may be paged so that a page lies entirely inside
+    /// one transaction some of whose rows were already on the page before
+    #[serde(default)]
+    pub rich_txs_cursor_within_tx: bool,
 }
 
 #[derive(Clone, Debug, Serialize, Deserialize)]
 pub struct Scenario {
     pub engine: String,
+    /// which indexer is driven: "rocks" (ckb-indexer, default) or "rich" (ckb-rich-indexer over SQLite)
+    #[serde(default = "default_target")]
+    pub target: String,
+    /// rich only: "memory" (SQLite in-memory database) or "file" (database file on tmpfs)
+    #[serde(default = "default_rich_store")]
+    pub rich_store: String,
     pub seed: u64,
     pub keep_num: u64,
     pub prune_interval: u64,
@@ -76,18 +90,48 @@ pub struct Scenario {
     pub ops: Vec<Op>,
 }
 
+fn default_target() -> String {
+    "rocks".into()
+}
+fn default_rich_store() -> String {
+    "memory".into()
+}
+
 // ------------------------------------------------------------------ generator
 
 const DATAS: &[&str] = &["", "aa", "aabb", "aabbcc", "bbcc", "cc", "aabbccaabbccaabbccaabbccaabbccaabbccdd", "ff"];
+/// extra data values of the rich all-0xff domain: they extend the data value "ff"
+const DATAS_FF: &[&str] = &["ffee", "ffff", "ff", "ff00"];
 const CAPS: &[u64] = &[0, 100, 1000, 1000, 1001, 6_100_000_000, 6_100_000_000, 1 << 38];
 
-fn gen_scripts(r: &mut Rng, bleed: bool) -> Vec<ScriptSpec> {
+/// `ff`: Some(false) = rich-indexer outside its all-0xff domain (no args start with 0xff; the
+/// carry path of the upper bound is still exercised by 0xfe 0xff ..), Some(true) = inside it
+fn gen_scripts(r: &mut Rng, bleed: bool, ff: Option<bool>) -> Vec<ScriptSpec> {
     // args are prefixes of a few master strings so that scripts share args prefixes
-    let masters: Vec<Vec<u8>> = if bleed {
+    let mut masters: Vec<Vec<u8>> = if bleed {
         vec![vec![0x01, 0x00, 0x00, 0x02], vec![0x00, 0x01], vec![0x01, 0x02, 0x00]]
     } else {
         vec![vec![0x01, 0x02, 0x03, 0x01], vec![0x02, 0x01], vec![0xff, 0xff, 0x01], vec![0x01, 0x01]]
     };
+    match ff {
+        None => {}
+        Some(false) => {
+            for m in masters.iter_mut() {
+                if m[0] == 0xff {
+                    m[0] = 0xfe;
+                }
+            }
+            if bleed {
+                masters.push(vec![0xfe, 0xff, 0x01]);
+            }
+        }
+        Some(true) => {
+            if bleed {
+                masters.push(vec![0xff, 0xff, 0x01]);
+            }
+            masters.push(vec![0xff, 0xff, 0xff]);
+        }
+    }
     let n = r.urange(4, 9);
     let mut out: Vec<ScriptSpec> = Vec::new();
     let mut guard = 0;
@@ -107,16 +151,26 @@ fn gen_scripts(r: &mut Rng, bleed: bool) -> Vec<ScriptSpec> {
     out
 }
 
-fn gen_out(r: &mut Rng, nscripts: usize) -> OutSpec {
-    OutSpec {
+#[derive(Clone, Copy)]
+struct GenCtx {
+    rich: bool,
+    ff_data: bool,
+}
+
+fn gen_out(r: &mut Rng, nscripts: usize, g: GenCtx) -> OutSpec {
+    let mut o = OutSpec {
         lock: r.idx(nscripts),
         typ: if r.chance(45, 100) { Some(r.idx(nscripts)) } else { None },
         data: r.pick(DATAS).to_string(),
         cap: *r.pick(CAPS),
+    };
+    if g.ff_data && r.chance(30, 100) {
+        o.data = r.pick(DATAS_FF).to_string();
     }
+    o
 }
 
-fn gen_block(r: &mut Rng, nscripts: usize, in_fork: bool, genesis: bool) -> BlockSpec {
+fn gen_block(r: &mut Rng, nscripts: usize, in_fork: bool, genesis: bool, g: GenCtx) -> BlockSpec {
     let ncb = if genesis { r.urange(2, 4) } else { r.weighted(&[20, 50, 30]) };
     let ntx = if genesis { r.urange(0, 1) } else { r.weighted(&[22, 35, 28, 15]) };
     let mut txs = Vec::new();
@@ -134,16 +188,31 @@ fn gen_block(r: &mut Rng, nscripts: usize, in_fork: bool, genesis: bool) -> Bloc
                         k: r.below(1 << 16) as u32,
                     })
                     .collect(),
-                outputs: (0..nout).map(|_| gen_out(r, nscripts)).collect(),
+                outputs: (0..nout).map(|_| gen_out(r, nscripts, g)).collect(),
+                cell_deps: if g.rich && r.chance(25, 100) { (0..r.urange(1, 2)).map(|_| r.below(1 << 16) as u32).collect() } else { Vec::new() },
+                header_deps: if g.rich && r.chance(20, 100) { (0..r.urange(1, 2)).map(|_| r.below(1 << 16) as u32).collect() } else { Vec::new() },
             });
         }
     }
-    BlockSpec {
+    let mut b = BlockSpec {
         salt: r.next_u64() >> 8,
         copy_cellbase: in_fork && r.chance(25, 100),
-        cellbase: (0..ncb).map(|_| gen_out(r, nscripts)).collect(),
+        cellbase: (0..ncb).map(|_| gen_out(r, nscripts, g)).collect(),
         txs,
+        uncles: Vec::new(),
+        proposals: Vec::new(),
+    };
+    if g.rich {
+        // the rich-indexer stores uncles (as rows of the block table) and proposals
+        for _ in 0..r.weighted(&[60, 28, 12]) {
+            b.uncles.push(UncleSpec {
+                salt: r.next_u64() >> 8,
+                proposals: (0..r.weighted(&[50, 30, 20])).map(|_| r.below(1 << 20)).collect(),
+            });
+        }
+        b.proposals = (0..r.weighted(&[55, 25, 20])).map(|_| r.below(1 << 20)).collect();
     }
+    b
 }
 
 fn gen_search_script(r: &mut Rng, scripts: &[ScriptSpec], bleed: bool) -> ScriptSpec {
@@ -178,11 +247,12 @@ fn gen_range(r: &mut Rng, points: &[u64]) -> [u64; 2] {
     if r.chance(1, 8) { [a, b] } else { [a.min(b), a.max(b)] }
 }
 
-fn gen_query(r: &mut Rng, scripts: &[ScriptSpec], height: u64, dom: Domains) -> QuerySpec {
+fn gen_query(r: &mut Rng, scripts: &[ScriptSpec], height: u64, dom: Domains, g: GenCtx) -> QuerySpec {
     let bleed = dom.zero_args;
-    let api = ["cells", "txs", "txs_grouped", "capacity"][r.weighted(&[40, 25, 15, 20])].to_string();
+    let api = ["cells", "txs", "txs_grouped", "capacity"][r.weighted(if g.rich { &[32, 30, 18, 20] } else { &[40, 25, 15, 20] })].to_string();
     let is_tx = api.starts_with("txs");
-    let mode = match r.weighted(&[35, 20, 40, 3]) {
+    // the rich-indexer answers partial searches; the RocksDB indexer refuses them
+    let mode = match r.weighted(if g.rich { &[30, 18, 30, 22] } else { &[35, 20, 40, 3] }) {
         0 => None,
         1 => Some("prefix".to_string()),
         2 => Some("exact".to_string()),
@@ -200,13 +270,14 @@ fn gen_query(r: &mut Rng, scripts: &[ScriptSpec], height: u64, dom: Domains) -> 
             }
             f.script = Some(fs);
         }
-        let unsupported_ok = !is_tx || r.chance(4, 100);
+        // the rich-indexer documents every filter kind for get_transactions too
+        let unsupported_ok = !is_tx || g.rich || r.chance(4, 100);
         if unsupported_ok {
             if r.chance(25, 100) && (api != "capacity" || dom.capacity_script_len_range) {
                 f.script_len_range = Some(gen_range(r, &[0, 1, 33, 34, 35, 36, 37, 100]));
             }
             if r.chance(25, 100) {
-                let ds: &str = *r.pick(DATAS);
+                let ds: &str = if g.ff_data && r.chance(1, 2) { *r.pick(DATAS_FF) } else { *r.pick(DATAS) };
                 let d = unhex(ds);
                 let lo = r.urange(0, d.len());
                 let hi = r.urange(lo, d.len());
@@ -234,9 +305,17 @@ fn gen_query(r: &mut Rng, scripts: &[ScriptSpec], height: u64, dom: Domains) -> 
     } else {
         None
     };
+    let mut script = gen_search_script(r, scripts, bleed);
+    if g.rich && mode.as_deref() == Some("partial") && r.chance(60, 100) {
+        // an inner slice of the args
+        let a = unhex(&script.args);
+        let lo = r.urange(0, a.len());
+        let hi = r.urange(lo, a.len());
+        script.args = hex(&a[lo..hi]);
+    }
     QuerySpec {
         api,
-        script: gen_search_script(r, scripts, bleed),
+        script,
         script_type: if r.chance(60, 100) { "lock".into() } else { "type".into() },
         mode,
         filter,
@@ -250,36 +329,50 @@ fn gen_query(r: &mut Rng, scripts: &[ScriptSpec], height: u64, dom: Domains) -> 
     }
 }
 
-pub fn gen_scenario(seed: u64, suspects: bool) -> Scenario {
-    let mut r = Rng::new(seed ^ 0xC18_C18);
-    let keep_num = *r.pick(&[1u64, 2, 3, 3, 4, 5, 6, 8]);
+pub fn gen_scenario(seed: u64, suspects: bool, rich: bool) -> Scenario {
+    let mut r = Rng::new(seed ^ if rich { 0xC18_51C4 } else { 0xC18_C18 });
+    // the rich-indexer keeps everything (no prune): keep_num only bounds the reorg depth the generator asks for
+    let keep_num = *r.pick(if rich { &[1u64, 2, 3, 4, 5, 6, 8, 12] } else { &[1u64, 2, 3, 3, 4, 5, 6, 8] });
     let prune_interval = r.range(1, 6);
-    let dom = if suspects {
+    let dom = if rich {
+        // the three domains in which the RocksDB indexer deviates are ordinary inputs for the
+        // rich-indexer; its own two deviation domains are entered by the --suspects part only
+        Domains {
+            zero_args: r.chance(1, 2),
+            capacity_script_len_range: true,
+            rollback_to_empty: true,
+            rich_all_ff_prefix: suspects && r.chance(2, 3),
+            rich_txs_cursor_within_tx: suspects && r.chance(2, 3),
+        }
+    } else if suspects {
         Domains {
             zero_args: r.chance(1, 2),
             capacity_script_len_range: r.chance(1, 2),
             rollback_to_empty: r.chance(1, 2),
+            ..Default::default()
         }
     } else {
         Domains::default()
     };
+    let rich_store = if rich && r.chance(15, 100) { "file" } else { "memory" }.to_string();
+    let g = GenCtx { rich, ff_data: rich && dom.rich_all_ff_prefix };
     let bleed = dom.zero_args;
-    let scripts = gen_scripts(&mut r, bleed);
+    let scripts = gen_scripts(&mut r, bleed, if rich { Some(dom.rich_all_ff_prefix) } else { None });
     let ns = scripts.len();
     let nops = r.urange(25, 90);
     let mut ops: Vec<Op> = Vec::new();
     // shadow heights only steer the generator; the executor clamps everything itself
     let mut h_main: u64 = 0;
-    ops.push(Op::Mine { block: gen_block(&mut r, ns, false, true) });
+    ops.push(Op::Mine { block: gen_block(&mut r, ns, false, true, g) });
     ops.push(Op::Sync { bounce: false });
     while ops.len() < nops {
         match r.weighted(&[20, 16, 20, 9, 6, 26]) {
             0 => {
-                ops.push(Op::Mine { block: gen_block(&mut r, ns, false, false) });
+                ops.push(Op::Mine { block: gen_block(&mut r, ns, false, false, g) });
                 h_main += 1;
             }
             1 => {
-                ops.push(Op::Mine { block: gen_block(&mut r, ns, false, false) });
+                ops.push(Op::Mine { block: gen_block(&mut r, ns, false, false, g) });
                 h_main += 1;
                 ops.push(Op::Sync { bounce: r.chance(30, 100) });
             }
@@ -299,7 +392,7 @@ pub fn gen_scenario(seed: u64, suspects: bool) -> Scenario {
                     _ => -1,
                 };
                 let len = (back as i64 + extra).max(1) as usize;
-                let blocks: Vec<BlockSpec> = (0..len).map(|_| gen_block(&mut r, ns, true, false)).collect();
+                let blocks: Vec<BlockSpec> = (0..len).map(|_| gen_block(&mut r, ns, true, false, g)).collect();
                 h_main = h_main.saturating_sub(back as u64) + len as u64;
                 ops.push(Op::SwitchBranch { back, blocks });
                 if r.chance(70, 100) {
@@ -307,18 +400,18 @@ pub fn gen_scenario(seed: u64, suspects: bool) -> Scenario {
                     for _ in 0..(back as usize + len) {
                         ops.push(Op::Sync { bounce: r.chance(15, 100) });
                         if r.chance(30, 100) {
-                            ops.push(Op::Query { q: gen_query(&mut r, &scripts, h_main, dom) });
+                            ops.push(Op::Query { q: gen_query(&mut r, &scripts, h_main, dom, g) });
                         }
                     }
                 }
             }
             4 => ops.push(Op::Rollback),
-            _ => ops.push(Op::Query { q: gen_query(&mut r, &scripts, h_main, dom) }),
+            _ => ops.push(Op::Query { q: gen_query(&mut r, &scripts, h_main, dom, g) }),
         }
     }
     let mut probe_queries = Vec::new();
     for _ in 0..r.urange(4, 8) {
-        let mut q = gen_query(&mut r, &scripts, h_main / 2 + 1, dom);
+        let mut q = gen_query(&mut r, &scripts, h_main / 2 + 1, dom, g);
         if q.limit == 0 {
             q.limit = 2;
         }
@@ -326,6 +419,8 @@ pub fn gen_scenario(seed: u64, suspects: bool) -> Scenario {
     }
     Scenario {
         engine: "simidx".into(),
+        target: if rich { "rich" } else { "rocks" }.into(),
+        rich_store,
         seed,
         keep_num,
         prune_interval,
@@ -358,8 +453,6 @@ fn guarded<T>(f: impl FnOnce() -> T) -> Result<T, String> {
     })
 }
 
-type Dump = Vec<(Vec<u8>, Vec<u8>)>;
-
 struct Snap {
     answers: Vec<String>,
     live_rows: Dump,
@@ -373,8 +466,7 @@ struct Exec<'a> {
     idx: Option<usize>,
     /// highest block number ever appended to the indexer (prune is driven by it)
     tmax: Option<u64>,
-    indexer: VerifIndexer,
-    handle: IndexerHandle,
+    be: Backend,
     snaps: HashMap<Option<usize>, Snap>,
     sweep: Vec<QuerySpec>,
     last_dump: Dump,
@@ -387,22 +479,6 @@ struct Exec<'a> {
     il: Fnv,
 }
 
-const LIVE_PREFIXES: [u8; 6] = [0, 64, 96, 128, 160, 224];
-
-fn prefix_name(p: u8) -> &'static str {
-    match p {
-        0 => "OutPoint",
-        32 => "ConsumedOutPoint",
-        64 => "CellLockScript",
-        96 => "CellTypeScript",
-        128 => "TxLockScript",
-        160 => "TxTypeScript",
-        192 => "TxHash",
-        224 => "Header",
-        _ => "unknown",
-    }
-}
-
 impl<'a> Exec<'a> {
     fn ev(&mut self, s: &str) {
         self.log.write_str(s);
@@ -412,9 +488,11 @@ impl<'a> Exec<'a> {
     }
     fn viol(&mut self, class: &str, detail: String) {
         if self.res.violation.is_none() {
+            // every class of the rich-indexer part carries the prefix "rich:"
+            let class = if self.be.is_rich() { format!("rich:{class}") } else { class.to_string() };
             self.res.violation = Some(Violation {
                 property: PROP.into(),
-                class: class.into(),
+                class,
                 detail,
             });
         }
@@ -436,6 +514,10 @@ impl<'a> Exec<'a> {
     /// retention rule of the property: a rollback that lands on block number `to` (None = empty
     /// index) is inside the retention iff (highest appended number) - to <= keep_num
     fn within_retention(&self, to: Option<u64>) -> bool {
+        if self.be.is_rich() {
+            // the rich-indexer never prunes: every depth is inside its retention
+            return true;
+        }
         match (self.tmax, to) {
             (None, _) => true,
             (Some(t), Some(n)) => t.saturating_sub(n) <= self.sc.keep_num,
@@ -444,10 +526,10 @@ impl<'a> Exec<'a> {
     }
 
     fn dump(&mut self) -> Dump {
-        match guarded(|| self.indexer.dump()) {
+        match guarded(|| self.be.dump()) {
             Ok(Ok(d)) => d,
             Ok(Err(e)) => {
-                self.viol("store_error:dump", format!("{e}"));
+                self.viol("store_error:dump", e);
                 Vec::new()
             }
             Err(p) => {
@@ -460,7 +542,7 @@ impl<'a> Exec<'a> {
     fn run_query(&mut self, q: &QuerySpec, wher: &str) -> Option<String> {
         let st = self.state();
         let tip = self.tip_of(self.idx);
-        let out = check_query(&self.handle, &self.sc.scripts, q, &st, tip, &mut self.res.probes);
+        let out = check_query(&self.be, &self.sc.scripts, q, &st, tip, &mut self.res.probes, self.sc.domains);
         match out {
             Ok(summary) => Some(summary),
             Err((class, detail)) => {
@@ -473,9 +555,8 @@ impl<'a> Exec<'a> {
     /// tip through both APIs + full sweep over every pool script
     fn post_check(&mut self, wher: &str) {
         let want = self.tip_of(self.idx);
-        match guarded(|| self.indexer.tip()) {
+        match guarded(|| self.be.tip()) {
             Ok(Ok(got)) => {
-                let got = got.map(|(n, h)| (n, h32(&h)));
                 if got != want {
                     self.viol(
                         &(if want.is_none() { "tip_mismatch:empty_index".to_string() } else { format!("tip_mismatch:{wher}") }),
@@ -483,12 +564,11 @@ impl<'a> Exec<'a> {
                     );
                 }
             }
-            Ok(Err(e)) => self.viol("store_error:tip", format!("{e}")),
+            Ok(Err(e)) => self.viol("store_error:tip", e),
             Err(p) => self.viol("indexer_panic:tip", p),
         }
-        match guarded(|| self.handle.get_indexer_tip()) {
+        match guarded(|| self.be.handle_tip()) {
             Ok(Ok(got)) => {
-                let got = got.map(|t| (t.block_number.value(), t.block_hash.0));
                 if got != want {
                     self.viol(
                         &(if want.is_none() { "tip_mismatch:empty_index".to_string() } else { format!("tip_mismatch:{wher}") }),
@@ -496,7 +576,7 @@ impl<'a> Exec<'a> {
                     );
                 }
             }
-            Ok(Err(e)) => self.viol("store_error:get_indexer_tip", format!("{e}")),
+            Ok(Err(e)) => self.viol("store_error:get_indexer_tip", e),
             Err(p) => self.viol("indexer_panic:get_indexer_tip", p),
         }
         if self.failed() {
@@ -514,7 +594,7 @@ impl<'a> Exec<'a> {
     fn probe_answers(&mut self) -> Vec<String> {
         let mut out = Vec::new();
         for q in &self.sc.probe_queries {
-            let a = guarded(|| raw_answer(&self.handle, &self.sc.scripts, q));
+            let a = guarded(|| raw_answer(&self.be, &self.sc.scripts, q));
             match a {
                 Ok(s) => out.push(s),
                 Err(p) => {
@@ -526,8 +606,8 @@ impl<'a> Exec<'a> {
         out
     }
 
-    fn live_rows(d: &Dump) -> Dump {
-        d.iter().filter(|(k, _)| LIVE_PREFIXES.contains(&k[0])).cloned().collect()
+    fn live_rows(&self, d: &Dump) -> Dump {
+        d.iter().filter(|(k, _)| self.be.row_is_compared(k)).cloned().collect()
     }
 
     fn note_dump_change(&mut self, new: &Dump, appended: bool) {
@@ -536,7 +616,7 @@ impl<'a> Exec<'a> {
             let pruned = self
                 .last_dump
                 .iter()
-                .filter(|(k, _)| matches!(k[0], 32 | 192 | 224) && !newkeys.contains(k))
+                .filter(|(k, _)| self.be.row_is_prunable_kind(k) && !newkeys.contains(k))
                 .count();
             if pruned > 0 {
                 self.res.faults.inc("prune_fired");
@@ -549,7 +629,7 @@ impl<'a> Exec<'a> {
         let d = self.dump();
         self.note_dump_change(&d, appended);
         let answers = self.probe_answers();
-        let live_rows = Self::live_rows(&d);
+        let live_rows = self.live_rows(&d);
         self.last_dump = d;
         self.snaps.insert(at, Snap { answers, live_rows });
     }
@@ -561,7 +641,7 @@ impl<'a> Exec<'a> {
         if self.failed() {
             return;
         }
-        let now = Self::live_rows(&d);
+        let now = self.live_rows(&d);
         self.last_dump = d;
         let Some(snap) = self.snaps.get(&at) else {
             self.res.harness_error = Some(format!("no snapshot for block {at:?}"));
@@ -588,19 +668,16 @@ impl<'a> Exec<'a> {
         for (k, v) in &before {
             match after.get(*k) {
                 Some(v2) if v2 == v => {}
-                Some(_) => {
-                    bad = Some((prefix_name(k[0]).to_string(), format!("value of row {} changed", hex(k))));
+                Some(v2) => {
+                    bad = Some((self.be.row_kind(k), format!("value of row {} changed from {} to {}", self.be.row_name(k), self.be.row_name(v), self.be.row_name(v2))));
                     break;
                 }
                 None => {
-                    let prunable = k[0] == 224 && k.len() >= 9 && {
-                        let n = u64::from_be_bytes(k[1..9].try_into().unwrap());
-                        n + keep + 1 <= tmax
-                    };
+                    let prunable = self.be.row_prunable_header(k).map(|n| n + keep + 1 <= tmax).unwrap_or(false);
                     if prunable {
                         pruned_headers += 1;
                     } else {
-                        bad = Some((prefix_name(k[0]).to_string(), format!("row {} existed before the append(s) and is missing after rolling back", hex(k))));
+                        bad = Some((self.be.row_kind(k), format!("row {} existed before the append(s) and is missing after rolling back", self.be.row_name(k))));
                         break;
                     }
                 }
@@ -609,7 +686,7 @@ impl<'a> Exec<'a> {
         if bad.is_none() {
             for (k, _) in &after {
                 if !before.contains_key(*k) {
-                    bad = Some((prefix_name(k[0]).to_string(), format!("row {} did not exist before the append(s) and is left behind after rolling back", hex(k))));
+                    bad = Some((self.be.row_kind(k), format!("row {} did not exist before the append(s) and is left behind after rolling back", self.be.row_name(k))));
                     break;
                 }
             }
@@ -635,7 +712,7 @@ impl<'a> Exec<'a> {
         if depth_now == self.sc.keep_num {
             self.res.probes.inc("rollback_at_retention_limit");
         }
-        match guarded(|| self.indexer.rollback()) {
+        match guarded(|| self.be.rollback()) {
             Ok(Ok(())) => {}
             Ok(Err(e)) => {
                 self.viol("rollback_error", format!("{wher}: {e}"));
@@ -664,7 +741,7 @@ impl<'a> Exec<'a> {
         let number = self.world.blocks[nb].number;
         let rounds = if bounce { 2 } else { 1 };
         for round in 0..rounds {
-            match guarded(|| self.indexer.append(&view)) {
+            match guarded(|| self.be.append(&view)) {
                 Ok(Ok(())) => {}
                 Ok(Err(e)) => {
                     self.viol("append_error", format!("block {number}: {e}"));
@@ -810,17 +887,27 @@ pub fn exec(sc: &Scenario, dir: &Path) -> RunResult {
         res.harness_error = Some("bad scenario: scripts empty or keep_num/prune_interval zero".into());
         return res;
     }
-    let indexer = VerifIndexer::open(dir.join("db"), sc.keep_num, sc.prune_interval);
-    // the timeout is wall-clock inside the service; make it unreachable
-    let handle = indexer.handle(usize::MAX, std::time::Duration::from_secs(86_400));
+    let be = match sc.target.as_str() {
+        "rocks" => Backend::open_rocks(dir, sc.keep_num, sc.prune_interval),
+        "rich" => match guarded(|| Backend::open_rich(dir, sc.rich_store == "file")) {
+            Ok(Ok(b)) => b,
+            Ok(Err(e)) | Err(e) => {
+                res.harness_error = Some(format!("cannot open the rich-indexer store: {e}"));
+                return res;
+            }
+        },
+        other => {
+            res.harness_error = Some(format!("bad scenario: unknown target {other:?}"));
+            return res;
+        }
+    };
     let mut ex = Exec {
         sc,
         world: World::new(&sc.scripts),
         main: None,
         idx: None,
         tmax: None,
-        indexer,
-        handle,
+        be,
         snaps: HashMap::new(),
         sweep: build_sweep(&sc.scripts),
         last_dump: Vec::new(),
@@ -940,13 +1027,55 @@ pub fn exec(sc: &Scenario, dir: &Path) -> RunResult {
     let mut res = ex.res;
     res.log_hash = ex.log.finish();
     res.interleaving = ex.il.finish();
-    drop(ex.indexer);
-    drop(ex.handle);
+    let _ = guarded(|| ex.be.close());
     let _ = fs::remove_dir_all(dir);
     res
 }
 
 // ------------------------------------------------------------------ main
+
+struct Worker {
+    stdin: std::process::ChildStdin,
+    stdout: std::io::BufReader<std::process::ChildStdout>,
+}
+
+thread_local! {
+    static WORKER: std::cell::RefCell<Option<Worker>> = const { std::cell::RefCell::new(None) };
+}
+
+/// run the rich scenario of `seed` in this thread's child process (started on first use; it
+/// exits when its stdin closes at thread exit)
+fn exec_in_worker(seed: u64, suspects: bool, children: &std::sync::Mutex<Vec<std::process::Child>>) -> RunResult {
+    use std::io::{BufRead, Write};
+    WORKER.with(|w| {
+        let mut w = w.borrow_mut();
+        if w.is_none() {
+            let exe = std::env::current_exe().expect("current_exe");
+            let mut cmd = std::process::Command::new(exe);
+            cmd.arg("worker").arg("--rich");
+            if suspects {
+                cmd.arg("--suspects");
+            }
+            let mut child = cmd.stdin(std::process::Stdio::piped()).stdout(std::process::Stdio::piped()).spawn().expect("spawn worker");
+            *w = Some(Worker {
+                stdin: child.stdin.take().unwrap(),
+                stdout: std::io::BufReader::new(child.stdout.take().unwrap()),
+            });
+            children.lock().unwrap().push(child);
+        }
+        let wk = w.as_mut().unwrap();
+        let mut line = String::new();
+        let ok = writeln!(wk.stdin, "{seed}").is_ok() && wk.stdin.flush().is_ok() && wk.stdout.read_line(&mut line).map(|n| n > 0).unwrap_or(false);
+        match ok.then(|| serde_json::from_str::<RunResult>(&line).ok()).flatten() {
+            Some(r) => r,
+            None => {
+                // the worker died (a crash inside native code): report it and start a new one next time
+                *w = None;
+                RunResult { seed, harness_error: Some(format!("rich worker process died on seed {seed}")), ..Default::default() }
+            }
+        }
+    })
+}
 
 fn scratch_root() -> PathBuf {
     let base = if Path::new("/dev/shm").is_dir() { PathBuf::from("/dev/shm") } else { std::env::temp_dir() };
@@ -963,11 +1092,16 @@ fn main() {
         }
     }));
     let root = scratch_root();
+    fs::create_dir_all(&root).unwrap();
+    // ckb-rich-indexer unpacks its migration files into tempfile::tempdir(): keep that on tmpfs
+    // inside this process's scratch directory (set before any thread exists)
+    unsafe { std::env::set_var("TMPDIR", &root) };
     let suspects = arg_flag(&args, "--suspects");
+    let rich = arg_flag(&args, "--rich");
     let code = match mode {
         "gen" => {
             let seed: u64 = arg_value(&args, "--seed").unwrap().parse().unwrap();
-            let sc = gen_scenario(seed, suspects);
+            let sc = gen_scenario(seed, suspects, rich);
             println!("{}", serde_json::to_string_pretty(&sc).unwrap());
             0
         }
@@ -982,14 +1116,23 @@ fn main() {
             let (lo, hi) = parse_seed_range(&arg_value(&args, "--seeds").unwrap());
             let threads: usize = arg_value(&args, "--threads").map(|s| s.parse().unwrap()).unwrap_or(16);
             let mut batch = BatchResult::new("simidx");
+            let children: std::sync::Mutex<Vec<std::process::Child>> = std::sync::Mutex::new(Vec::new());
             parallel_seeds(
                 lo,
                 hi,
                 threads,
                 |seed| {
-                    let sc = gen_scenario(seed, suspects);
-                    let dir = root.join(format!("t{:?}", std::thread::current().id()).replace(['(', ')'], ""));
-                    let res = exec(&sc, &dir);
+                    let sc = gen_scenario(seed, suspects, rich);
+                    let res = if rich {
+                        // SQLite serialises threads of one process on process-global mutexes
+                        // (measured: 16 threads ~ 4 runs/s, 16 processes ~ 23 runs/s): every
+                        // worker thread of a rich batch owns one child process that executes
+                        // the scenarios of the seeds it is sent
+                        exec_in_worker(seed, suspects, &children)
+                    } else {
+                        let dir = root.join(format!("t{:?}", std::thread::current().id()).replace(['(', ')'], ""));
+                        exec(&sc, &dir)
+                    };
                     (sc, res)
                 },
                 |_, (sc, res)| {
@@ -1000,11 +1143,29 @@ fn main() {
                 },
             );
             batch.finish();
+            for mut c in children.into_inner().unwrap() {
+                let _ = c.wait();
+            }
             println!("{}", serde_json::to_string(&batch).unwrap());
             0
         }
+        "worker" => {
+            // one seed per input line, one RunResult per output line
+            use std::io::{BufRead, Write};
+            let stdin = std::io::stdin();
+            let mut out = std::io::stdout();
+            for line in stdin.lock().lines() {
+                let Ok(line) = line else { break };
+                let Ok(seed) = line.trim().parse::<u64>() else { continue };
+                let sc = gen_scenario(seed, suspects, rich);
+                let res = exec(&sc, &root.join("w"));
+                let _ = writeln!(out, "{}", serde_json::to_string(&res).unwrap());
+                let _ = out.flush();
+            }
+            0
+        }
         _ => {
-            eprintln!("usage: simidx gen --seed S [--suspects] | exec --scenario FILE | batch --seeds a..b [--threads N] [--suspects]");
+            eprintln!("usage: simidx gen --seed S [--suspects] [--rich] | exec --scenario FILE | batch --seeds a..b [--threads N] [--suspects] [--rich] | worker [--rich] [--suspects] (seeds on stdin)");
             2
         }
     };
